@@ -4,7 +4,7 @@ CONSTANTS Prop
 tvars == <<cvars, kvars>>
 TInit == KInit /\ Init(Batch[tid].shape, 0)
 Diffs(ev, o) ==
-    IF ev.e \in {"tick", "reset", "settimeout", "epoch", "bdset"} THEN {}
+    IF ev.e \in {"tick", "reset", "enable", "disable", "settimeout", "epoch", "bdset"} THEN {}
     ELSE (IF o.r # ret'.r THEN {"result"} ELSE {})
          \cup (IF ev.e = "print" /\ ret'.r /\ o.r /\ o.nep # ret'.nep THEN {"epochs"} ELSE {})
          \cup (IF ev.e = "print" /\ ret'.r /\ o.r /\ o.fed # ret'.fed THEN {"fed_time"} ELSE {})
